@@ -21,6 +21,7 @@ def constAnswer (w : String) : Option String :=
   else if w == "hr.rewire" then some "observed"       -- known finding F-C05e: hash-set order; oracle only
   else if w == "hr.newdep" then some "observed"       -- known finding F-C05d: hash-set order; oracle only
   else if w == "own.sizes" then some "intact"         -- C13: a reload swaps the whole value, whatever its size and alignment
+  else if w == "cell.shapes" then some "exactly-once" -- C17/C13/C16: seed / value types of every destructor shape are dropped exactly once
   else if w == "by.iterlie" then some "same"          -- C16: the bytes are the iterator's items, whatever its size hint claims
   else none
 
